@@ -47,7 +47,8 @@ func main() {
 		return
 	}
 	if r.ReplayPath != "" {
-		vk.Fatalf("replay files of C15 name the operations (seq) or the schedule (conc); re-run with --c15-only <search> to reproduce")
+		replay(r)
+		return
 	}
 	if err := os.MkdirAll(scratchDir(), 0700); err != nil {
 		vk.Fatalf("scratch: %v", err)
@@ -65,7 +66,7 @@ func main() {
 		if r.Quick() {
 			searches = []search{{"s2f2q2", 5}, {"s1f4q1", 5}, {"default", 5}}
 		} else {
-			searches = []search{{"s2f2q2", 5}, {"s1f4q1", 5}, {"default", 5}, {"default-nocache", 5}, {"s3f2q1-utxo1", 5}}
+			searches = []search{{"s2f2q2", 7}, {"s1f4q1", 7}, {"default", 7}, {"default-nocache", 6}, {"s3f2q1-utxo1", 6}}
 		}
 		var per []interface{}
 		for _, s := range searches {
@@ -101,6 +102,59 @@ func main() {
 	r.Assume("wall-clock expiry (GoodTxDropTime, Lifetime, 30 s delayed cache delete) is outside the bound: all set to 1000 h / never")
 	r.Assume("xcrypto stand-in: real curve arithmetic, key images and ring signatures; Bulletproofs are an ideal functionality")
 	r.Finish()
+}
+
+// replay re-runs one recorded case and prints what happens (./check C15 --tier <tier of the record> --replay <file>).
+func replay(r *vk.Run) {
+	var rec struct {
+		Search   string
+		Steps    []int
+		Scenario string
+		Choices  []int
+	}
+	r.LoadReplay(&rec)
+	u := buildUniverse(!r.Quick(), allCfgs)
+	defer u.close()
+	if rec.Scenario != "" {
+		for _, sc := range scenarios(!r.Quick()) {
+			if sc.Name != rec.Scenario {
+				continue
+			}
+			c := &chooser{prefix: rec.Choices}
+			er := u.runSchedule(&sc, c)
+			fmt.Printf("scenario %s (%s) setup %v threads %v\nschedule (thread ids): %v\nfinal: %s\n", sc.Name, sc.Cfg, sc.Setup, sc.Threads, er.Trace, er.Final)
+			for _, v := range er.Viol {
+				fmt.Printf("VIOLATION %s :: %s\n", v[0], v[1])
+			}
+			return
+		}
+		vk.Fatalf("replay: unknown scenario %q (recorded in the other tier?)", rec.Scenario)
+	}
+	ops := u.ops()
+	in := u.newInst(rec.Search)
+	defer in.close()
+	fmt.Println("start:", in.stateString())
+	for _, st := range rec.Steps {
+		if st/stepBase >= len(ops) {
+			vk.Fatalf("replay: step %d is outside this tier's alphabet", st)
+		}
+		en, k, w := in.apply(ops[st/stepBase], st%stepBase)
+		fmt.Printf("%s: enabled=%v", u.stepName(ops, st), en)
+		if ops[st/stepBase].kind == opAdd {
+			fmt.Printf(" result=%q", in.lastAdd)
+		}
+		fmt.Println()
+		if k != "" {
+			fmt.Printf("VIOLATION %s :: %s\n", k, w)
+			return
+		}
+		fmt.Println("   ", in.stateString())
+	}
+	if k, w := in.oracle(); k != "" {
+		fmt.Printf("VIOLATION %s :: %s\n", k, w)
+	} else {
+		fmt.Println("oracle: holds")
+	}
 }
 
 func probe(r *vk.Run) {
